@@ -175,6 +175,13 @@ def run(ctx):
     tr = [r for r in tr if not r["slow"]]
     acc, rej = judge(ctx, tr, job)
     if not rej:
+        def corrupt(t):
+            for e in t:
+                if e["ev"] == "Exec" and e["o"]["res"] == "hit" and e["o"]["ttls"]:
+                    e["o"]["ttls"][0] += 3
+                    return t
+            return None
+        cl.binding_selfcheck(ctx, [r["events"] for r in tr], corrupt, "served TTL")
         if len(slow) > len(tr) // 5:
             raise vlib.Infra("%d of %d real phases exceeded the 0.9 s skew budget" % (len(slow), len(tr) + len(slow)))
         hits = sum(1 for r in tr if r["tag"] == "inject" and r["events"][-1]["o"]["res"] == "hit")
